@@ -8,6 +8,7 @@ import Mtv.Schema.Names
 import Mtv.Gen.SchemaApi
 import Mtv.Gen.SchemaMt
 import Mtv.Gen.Registry
+import Mtv.Gen.RegistryFields
 namespace Mtv.C13
 open Mtv.Schema Mtv.TL Mtv.Gen
 
@@ -74,6 +75,67 @@ def regNamesChunksOk : List (List CtorDesc) → List NameTable → Bool
   | [], [] => true
   | c :: cs, n :: ns => regNamesRowsOk c n && regNamesChunksOk cs ns
   | _, _ => false
+
+/-! ### every field of the Go struct is a field of the codec's layout
+
+`registryN` (what `defMatch` compares with the schema, and what the codec model of C01/C02/C15 encodes)
+lists the fields the ENCODER writes: the extractor leaves out a field tagged `tl:"-"`. The decoder does not
+know that tag — it treats any tagged field as optional under flag bit 0 — so such a field is not inert. The
+obligation below closes the gap from the other side: `allFieldsN` carries every field reflection finds in
+the struct (exported or not) with its struct tag exactly as written, and must be the layout's field list,
+name by name, each tag being literally the text of the layout's flag (`tl:"flag:N"`,
+`tl:"flag:N,encoded_in_bitflags"`, or no tag at all). A field the schema does not define therefore fails
+whatever its tag says: if the extractor drops it from the layout the lists differ in length; if it keeps
+it, `defMatch` has one field too many. No exception is needed on the unchanged tree (1 227 registered
+types, 3 157 struct fields: none ignored, unexported or tagged otherwise); types with a custom codec
+(`MessageContainer`, `GzipPacked`: no reflected layout, kinds `container`/`gzip`) and enums are skipped. -/
+
+/-- every struct field of a registered type: (name, whole struct tag as written), both as (length, value) -/
+abbrev FieldTable := List (Nat × List ((Nat × Nat) × (Nat × Nat)))
+
+def bTagFlag : BStr := ⟨9, 0x746c3a22666c61673a⟩                                     -- `tl:"flag:`
+def bTagInBits : BStr := ⟨20, 0x2c656e636f6465645f696e5f626974666c616773⟩             -- `,encoded_in_bitflags`
+def bDQuote : BStr := ⟨1, 0x22⟩
+
+/-- the struct tag a field with this flag is written with -/
+def expectedTag : Option Flag → BStr
+  | none => BStr.empty
+  | some f => bTagFlag ++ decB f.bit ++ (if f.inBits then bTagInBits else BStr.empty) ++ bDQuote
+
+/-- is the reflected field (name, tag) the layout's field of that position (name from the name table)? -/
+def fieldIsLayout (f : FieldDesc) (n : Nat × Nat) (a : (Nat × Nat) × (Nat × Nat)) : Bool :=
+  a.1 == n && expectedTag f.flag == ⟨a.2.1, a.2.2⟩
+
+def fieldsAreLayout : List FieldDesc → List (Nat × Nat) → List ((Nat × Nat) × (Nat × Nat)) → Bool
+  | [], [], [] => true
+  | f :: fs, n :: ns, a :: as => fieldIsLayout f n a && fieldsAreLayout fs ns as
+  | _, _, _ => false
+
+def ctorFieldsOk (c : CtorDesc) (names : List (Nat × Nat)) (all : List ((Nat × Nat) × (Nat × Nat))) : Bool :=
+  c.kind != .struct || fieldsAreLayout c.fields names all
+
+/-- one chunk: row by row the same constructor id in the three tables, and `ctorFieldsOk` -/
+def regFieldsRowsOk : List CtorDesc → NameTable → FieldTable → Bool
+  | [], [], [] => true
+  | c :: cs, n :: ns, a :: as =>
+    c.id == n.1 && c.id == a.1 && ctorFieldsOk c n.2 a.2 && regFieldsRowsOk cs ns as
+  | _, _, _ => false
+
+def regFieldsChunksOk : List (List CtorDesc) → List NameTable → List FieldTable → Bool
+  | [], [], [] => true
+  | c :: cs, n :: ns, a :: as => regFieldsRowsOk c n a && regFieldsChunksOk cs ns as
+  | _, _, _ => false
+
+/-- for the driver's report: the reflected fields of a constructor that are not in its layout (by name),
+and those that are but carry another tag than their flag's -/
+def extraFieldsOf (names : List (Nat × Nat)) (all : List ((Nat × Nat) × (Nat × Nat))) : List BStr :=
+  (all.filter fun a => !names.contains a.1).map fun a => ⟨a.1.1, a.1.2⟩
+
+def badTagFieldsOf (c : CtorDesc) (names : List (Nat × Nat)) (all : List ((Nat × Nat) × (Nat × Nat))) : List BStr :=
+  (all.filter fun a =>
+    match (List.zip c.fields names).find? (fun fn => fn.2 == a.1) with
+    | some fn => expectedTag fn.1.flag != ⟨a.2.1, a.2.2⟩
+    | none => false).map fun a => ⟨a.1.1, a.1.2⟩
 
 /-- one registered constructor is recorded in the literal interface / enum tables -/
 def regRowOk (c : CtorDesc) : Bool :=
